@@ -198,8 +198,9 @@ fn run_pair<const N: usize, const M: usize>(cx: &mut Ctx, la: &[u8], ra: &[u8]) 
         let want: BTreeSet<u8> = ls.difference(&rs).copied().collect();
         let keys: BTreeSet<u8> = got.iter().map(|k| k.k).collect();
         cx.check(PM, keys == want && got.len() == want.len(), || format!("L - R is {got:?} but the mathematical result is {want:?}"));
-        let clones = c1[pl::Cb::Clone as usize] - c0[pl::Cb::Clone as usize];
-        cx.check(PM, clones as usize == got.len(), || format!("L - R cloned {clones} elements for a result of {}", got.len()));
+        // (how many clones `-` makes on the way is not fixed by the property: only that the result holds
+        // its own, fresh copies of left elements and that the operands are untouched)
+        let _ = (c0, c1);
         for k in &got {
             let o = pl::obj(k.id).unwrap();
             let from_left = before_l.iter().any(|b| b.id == o.clone_of);
